@@ -7,6 +7,7 @@ renamed apart, function bodies substituted with parenthesised arguments); the ou
 identical. Recursion beyond the documented depth must be an error.
 """
 import lib
+from gen import limits as GL
 from gen import macros as GM
 from checks.c02 import u4
 
@@ -40,18 +41,26 @@ def recursion_cases(ctx, worker):
         rules = ["    emit {x: u8} => x"]
         for k in range(depth):
             rules.append("    m%d {x} => asm { %s {x} }" % (k, "m%d" % (k + 1) if k + 1 < depth else "emit"))
-        # the evaluation-depth limit is 25 context levels; an asm block costs two levels, a function call one:
-        # shallow nesting must work, anything past 30 must be diagnosed, in between either is accepted
-        verdict = True if depth <= 10 else False if depth >= 30 else None
-        cases.append(("asm-chain", depth, "#ruledef\n{\n" + "\n".join(rules) + "\n}\nm0 7\n", verdict))
+        # the evaluation-depth limit is the declared constant E (expr::EVAL_RECURSION_DEPTH_MAX, read from the source so
+        # that changing the constant is not an alarm); a function call costs one level, an asm block two: a chain of
+        # up to E calls (E // 2 blocks) is within the limit and must work, one more must be diagnosed
+        limit = GL.eval_depth_max()
+        if limit is None:
+            v_fn = v_asm = True if depth <= 10 else False if depth >= 30 else None
+        else:
+            v_fn = depth <= limit
+            v_asm = depth <= limit // 2
+        cases.append(("asm-chain", depth, "#ruledef\n{\n" + "\n".join(rules) + "\n}\nm0 7\n", v_asm))
         fns = ["#fn f%d(v) => %s" % (k, "f%d(v) + 1" % (k + 1) if k + 1 < depth else "v") for k in range(depth)]
-        cases.append(("fn-chain", depth, "\n".join(fns) + "\n#d16 f0(1)`16\n", verdict))
+        cases.append(("fn-chain", depth, "\n".join(fns) + "\n#d16 f0(1)`16\n", v_fn, "%04x" % depth))
     for cyc in (1, 2, 3, 4):
         rules = ["    c%d {x} => asm { c%d {x} }" % (k, (k + 1) % cyc) for k in range(cyc)]
         cases.append(("asm-cycle", cyc, "#ruledef\n{\n" + "\n".join(rules) + "\n}\nc0 1\n", False))
         fns = ["#fn g%d(v) => g%d(v)" % (k, (k + 1) % cyc) for k in range(cyc)]
         cases.append(("fn-cycle", cyc, "\n".join(fns) + "\n#d8 g0(1)\n", False))
-    for kind, n, src, should_ok in cases:
+    for case in cases:
+        kind, n, src, should_ok = case[:4]
+        want_hex = case[4] if len(case) > 4 else None
         job = lib.asm_job({"main.asm": src}, want=["msgs"])
         rec = worker.run(job)
         ctx.evaluated()
@@ -68,7 +77,11 @@ def recursion_cases(ctx, worker):
                 ctx.count("recursion-diagnosed:" + kind)
                 ctx.nontrivial_case((kind + str(n)).encode())
         elif should_ok and not lib.ok(rec):
-            ctx.violation("recursion", {"kind": "shallow-nesting-rejected", "family": kind, "depth": n}, job, "assembles", lib.first_messages(rec))
+            ctx.violation("recursion", {"kind": "nesting-within-the-limit-rejected", "family": kind, "depth": n}, job, "assembles", lib.first_messages(rec))
+        elif should_ok and want_hex is not None and rec["out"]["hex"] != want_hex:
+            ctx.violation("recursion", {"kind": "call-differs-from-substituted-body", "family": kind, "depth": n}, job, {"hex": want_hex}, {"hex": rec["out"]["hex"][:40]})
+        elif should_ok:
+            ctx.nontrivial_case((kind + "ok" + str(n)).encode())
 
 
 def shard(ctx):
